@@ -749,6 +749,42 @@ def Kof(self):
     return self.K() if symbolic_mode() else self.Knum()
 
 
+def cell_invert_core(k, c, x):
+    """the clauses of cell_invert's (proved) postcondition that the involution lemma rests on"""
+    for nm, cond in k.ensures(c, x):
+        if nm.startswith('~') or nm.startswith(('gram_star', 'reciprocal_metric', 'angles_strict')):
+            continue
+        yield nm, cond
+
+
+class CellInvertOfReciprocal(Contract):
+    """ghost c0: cell_invert(x) == c0 for every x that satisfies the postcondition of cell_invert(c0).
+    Not proved from code of its own: it is the lemma `cell_invert_is_involution` (checks/C01.py) -- any x with
+    ensures(c0, x), any result with ensures(x, result) => result == c0 -- composed with cell_invert's contract."""
+    name = 'cell_invert'
+    key = 'cell_invert#of_reciprocal'
+    signature = [('c0', Cell())]
+
+    def __init__(self, module):
+        self.module = module
+
+    def call_requires(self, c0, x):
+        from pyvc.engine import REGISTRY
+        x = vlist(x)
+        yield from cell_invert_core(REGISTRY[(self.module, 'cell_invert')], c0, x)
+
+    def call_result(self, c0):
+        return list(c0)
+
+
+def _b_to_cell_extra_ns(self, c0):
+    return {'cell_invert': GhostStub(CellInvertOfReciprocal(self.module), c0)}
+
+
+BToCell.extra_ns = _b_to_cell_extra_ns
+BToCell.sign_hints = CellInvert.sign_hints
+
+
 def ubi_spec(U, c, K):
     """UBI = K (U B)^-1"""
     if symbolic_mode():
